@@ -572,9 +572,12 @@ def _run_case(ctx, repo, case):
             _time.tzset()
         m = mock.Mock(spec=_time)
         m.timezone = -secs
-        m.altzone = -secs
-        m.daylight = 0
-        m.localtime.return_value = mock.Mock(tm_isdst=0)
+        # the system zone may define a daylight rule that is not in effect
+        # (or be in effect): case["dst"] = [altzone seconds, daylight, isdst]
+        dst = case.get("dst") or [secs, 0, 0]
+        m.altzone = -dst[0]
+        m.daylight = dst[1]
+        m.localtime.return_value = mock.Mock(tm_isdst=dst[2])
         try:
             patcher = None
             if not use_real_tz:
@@ -634,6 +637,19 @@ def workload(ctx, repo):
                             case["mode"] = mode
                             set_mode_global("gregorian")
                             ctx.cls("mode/" + mode)
+                            if zform == "none" and r % 4 == 2 and \
+                                    "assumed_time_zone" not in case["cfg"] \
+                                    and not case["cfg"].get(
+                                        "default_to_unknown_time_zone"):
+                                # a daylight rule exists; in effect or not
+                                std = (local[0] * 60 + local[1]) * 60
+                                isdst = rng.choice((0, 0, 1, -1))
+                                alt = std + rng.choice((3600, 1800, -3600))
+                                case["dst"] = [alt, 1, isdst]
+                                if isdst == 1:
+                                    off = R.split_offset_seconds(alt)
+                                    case["expect"]["zone"] = list(off)
+                                ctx.cls("local-zone/daylight-rule/%d" % isdst)
                             if zform == "none" and r == 1 and \
                                     "assumed_time_zone" not in case["cfg"] \
                                     and not case["cfg"].get(
@@ -695,6 +711,8 @@ def workload(ctx, repo):
             run_case(ctx, repo, case)
         ctx.target("value-sweep")
     # 4. basic-only parsers accept basic forms, refuse extended-only ones
+    ctx.target("local-zone/daylight-rule/0", "local-zone/daylight-rule/1",
+               "reject/basic-only-truncated")
     ctx.target("reject/basic-only", "reject/mix-basic-date-ext-time",
                "reject/mix-ext-date-basic-time", "basic-only-accepts")
     for r in range(150 * reps):
@@ -704,6 +722,20 @@ def workload(ctx, repo):
         v = r % 4
         if v == 0:
             case = make_reject(rng, "basic-only")
+        elif v == 1 and r % 8 == 1:
+            # a basic-only parser that also allows truncated forms must still
+            # refuse extended times / zones on truncated or empty dates
+            cfg = cfg_key(rng, nexp=2, basic=True, trunc=True)
+            date = rng.choice(("", "--0412", "850412", "-W155", "---12"))
+            tail = rng.choice(("10:15", "10:15:30", "-15:30", "1015+05:30",
+                               "10:15Z", "10:15:30,5"))
+            case = {"op": "parse", "cfg": cfg, "text": date + "T" + tail,
+                    "local": [0, 0],
+                    "expect": {"kind": "reject",
+                               "tag": "reject/basic-only-truncated",
+                               "cfg": cfg,
+                               "why": "extended time/zone given to a "
+                                      "basic-only parser"}}
         elif v == 1:
             case = make_reject(rng, "mix-basic-date-ext-time")
         elif v == 2:
